@@ -244,7 +244,51 @@ pub fn judge(w: &World, run: &Run, focus: Option<&str>) -> (Verdict, RunInfo) {
     info.decoy_std = w.nodes.keys().any(|k| k.ends_with("/stdgates.inc"));
 
     let mut m = Model::new(w, &run.history);
-    let built = m.build();
+    let mut built = m.build();
+    if m.ambiguous_sites > 0 {
+        // try the alternative attributions of reads of unresolvable paths and keep the first
+        // explanation that is consistent with the history and with the tree of parsed sources
+        let k = m.ambiguous_sites.min(6);
+        let consistent = |m: &Model, run: &Run| -> bool {
+            if !m.r2.is_empty() || m.truncated || !m.history_fully_explained() {
+                return false;
+            }
+            fn shape(m: &Model, i: usize, f: &SynFile) -> bool {
+                let inst = &m.insts[i];
+                if f.children.len() != inst.children.len() {
+                    return false;
+                }
+                if inst.text.is_none() && !inst.refused_recursive {
+                    if let (Some(k), Some(e)) = (&inst.io_kind, &f.include_error) {
+                        if k != e {
+                            return false;
+                        }
+                    }
+                    // a site explained as "not read" must not carry the error of a real read
+                    if inst.io_kind.is_none() && f.include_error.as_deref().is_some_and(|e| e != "InvalidInput") {
+                        return false;
+                    }
+                }
+                inst.children.iter().zip(&f.children).all(|(c, fc)| shape(m, *c, fc))
+            }
+            match &run.result {
+                RunResult::Returned(o) => m.insts.is_empty() || shape(m, 0, &o.files),
+                _ => true,
+            }
+        };
+        if !consistent(&m, run) {
+            for mask in 1u32..(1 << k) {
+                let mut cand = Model::new(w, &run.history);
+                cand.choices = (0..k).map(|b| mask & (1 << b) == 0).collect();
+                let b = cand.build();
+                if consistent(&cand, run) {
+                    m = cand;
+                    built = b;
+                    break;
+                }
+            }
+        }
+    }
     info.env_list_used = m.env_used;
     info.cycle_refusals = m.cycle_refusals;
     info.instances = m.insts.len();
@@ -709,8 +753,8 @@ pub fn judge(w: &World, run: &Run, focus: Option<&str>) -> (Verdict, RunInfo) {
                                     C11,
                                     &format!("undiagnosed/{}", class),
                                     format!(
-                                        "`{}` was torn at byte {} inside a {} starting at byte {}; no lexical diagnostic is located on that lexeme (lexical diagnostics at {:?})",
-                                        d.path, d.at, class, lexeme_start,
+                                        "`{}` was damaged ({}) at byte {}, which leaves a malformed {} starting at byte {}; no lexical diagnostic is located on that lexeme (lexical diagnostics at {:?})",
+                                        d.path, d.kind, d.at, class, lexeme_start,
                                         facts.lex.iter().map(|e| e.0).collect::<Vec<_>>()
                                     ),
                                 ));
